@@ -549,6 +549,10 @@ def run(ctx):
     except gen.Untranslatable as ex:
         terr = str(ex)
         ctx.log("translator refused:", terr)
+        # fail closed: no stale generated definitions — the build of everything that depends on them must fail
+        common.write_if_changed(gen.OUT, "(* lib/py2coq/gen_optim.py refused to translate optimizers.py: %s *)\n"
+                                "From Coq Require Import String.\nDefinition translator_refused : False := \"%s\"%%string.\n"
+                                % (terr.replace("*)", "* )"), terr.replace('"', "'")))
     if irs is not None:
         for cname, shape in SLOT_SHAPE.items():
             if irs[cname].slots != shape:
